@@ -49,13 +49,13 @@ func ResignBlock(b *nom.AccountBlock, kp *wallet.KeyPair) {
 
 // MomentumFaults lists the fault kinds InjectFault knows.
 var MomentumFaults = []string{"bad-signature", "non-elected-producer", "wrong-changes-hash", "wrong-hash", "missing-account-block",
-	"extra-account-block", "mutated-account-block", "resigned-account-block", "retimed", "wrong-previous", "data-not-empty",
+	"extra-account-block", "listed-orphan-contract-send", "mutated-account-block", "resigned-account-block", "retimed", "wrong-previous", "data-not-empty",
 	"wrong-chain-id", "content-reordered"}
 
 // CertainFaults are the kinds that make an honest momentum invalid whatever the state
 // ("retimed" and "content-reordered" can yield another valid momentum).
 var CertainFaults = []string{"bad-signature", "non-elected-producer", "wrong-changes-hash", "wrong-hash", "missing-account-block",
-	"extra-account-block", "mutated-account-block", "resigned-account-block", "wrong-previous", "data-not-empty", "wrong-chain-id"}
+	"extra-account-block", "listed-orphan-contract-send", "mutated-account-block", "resigned-account-block", "wrong-previous", "data-not-empty", "wrong-chain-id"}
 
 // InjectFault returns a faulty copy of d, or nil if the kind does not apply to d.
 // keys: the world's key ring (the harness holds every key, so re-signed variants are possible).
@@ -97,6 +97,19 @@ func InjectFault(d *nom.DetailedMomentum, kind string, keys *KeyRing, extra *nom
 			return nil
 		}
 		f.AccountBlocks = append(f.AccountBlocks, extra.Copy())
+	case "listed-orphan-contract-send":
+		// the momentum's content names a send of a contract that no contract receive generated; the block itself is
+		// delivered alongside (content and blocks match), hash and signature by the momentum's own producer are right
+		if producer == nil {
+			return nil
+		}
+		orphan := &nom.AccountBlock{Version: 1, ChainIdentifier: m.ChainIdentifier, BlockType: nom.BlockTypeContractSend, Address: types.PlasmaContract,
+			ToAddress: producer.Address, Height: 1 << 20, PreviousHash: types.NewHash([]byte("orphan-previous")), TokenStandard: types.QsrTokenStandard,
+			Amount: big.NewInt(1000000), Data: []byte{}, MomentumAcknowledged: m.Previous()}
+		orphan.Hash = orphan.ComputeHash()
+		f.AccountBlocks = append(f.AccountBlocks, orphan)
+		m.Content = nom.NewMomentumContent(f.AccountBlocks)
+		Resign(m, producer)
 	case "mutated-account-block":
 		idx := -1
 		for i, b := range f.AccountBlocks {
